@@ -115,12 +115,47 @@ def first_diff(case, i, m):
     return len(min(i["steps"], m["steps"], key=len)), None, None, None
 
 
+CUT_HOW = {"short": "Content-Length announces the whole document, connection closed after a part of it",
+           "chunk": "chunked transfer broken off inside a chunk",
+           "chunkend": "chunked transfer without the terminating chunk",
+           "over": "more bytes sent than Content-Length announces"}
+
+
+def cut_in_force(case, k):
+    """the transport damage step k of the history is subject to: (spec, source) or None"""
+    if not isinstance(k, int) or k >= len(case.get("steps", [])):
+        return None
+    step = case["steps"][k]
+    if isinstance(step.get("resp"), dict) and step["resp"].get("st") == "cut":
+        return step["resp"], "s%d" % step.get("k", 0)
+    state = {}
+    for st in case["steps"][:k + 1]:
+        for b in st.get("set", []) or []:
+            state[b["k"]] = b["blob"]
+    polled = step.get("b", 0)
+    for key, spec in sorted(state.items()):
+        if spec.get("st") == "cut" and key // 4 == polled and "set" in step and not step.get("fail"):
+            return spec, "s%d" % key
+    return None
+
+
 def explain(case, i, m):
     k, step, a, b = first_diff(case, i, m)
     kind = case.get("kind")
     if step is None:
         return f"{kind} provider: implementation {json.dumps(a)[:300]} vs proved model {json.dumps(b)[:300]}"
     what = []
+    cut = cut_in_force(case, k)
+    if cut is not None and cut[0].get("how") != "over" and isinstance(a, dict) and isinstance(b, dict):
+        lost = [x for x in (b.get("active") or []) if x[0] == cut[1] and x not in (a.get("active") or [])]
+        deleted = [c for c in (a.get("calls") or []) if c[0] == "deleted" and c[1] == cut[1]]
+        if lost or deleted:
+            what.append(f"a partially received version of {cut[1]} ({'GET of the listed object: ' if kind == 'blob' else ''}"
+                        f"status 200, {CUT_HOW.get(cut[0].get('how'), '')}"
+                        f"{', reset' if cut[0].get('rst') else ''}) is content that cannot be used, not a missing source: "
+                        f"the version loaded before has to stay active ({'c18_partial_blob_keeps_previous' if kind == 'blob' else 'c18_partial_response_keeps_previous'}), but "
+                        + (f"the processor was called with {json.dumps(deleted[0])} and " if deleted else "")
+                        + f"the active rule set {json.dumps(lost[0] if lost else cut[1])} is lost")
     if isinstance(a, dict) and isinstance(b, dict):
         shared = sorted({x[0] for x in (a.get("active") or []) + (a.get("book") or []) if "|" in str(x[0])} |
                         {x[1] for x in (a.get("calls") or []) if "|" in str(x[1])})
@@ -140,7 +175,7 @@ def explain(case, i, m):
         if a.get("err") != b.get("err"):
             what.append(f"error reported: {a.get('err')} instead of {b.get('err')}")
     return (f"{kind} provider does not follow its sources: after step {k} {json.dumps(step)[:200]}: "
-            + "; ".join(what)[:700])
+            + "; ".join(what)[:1100])
 
 
 def shrink(exe, case):
@@ -197,6 +232,15 @@ def path_of(v):
     return v % 500 if v < 1000 else v
 
 
+def note_cut(outcomes, prov, spec, loaded):
+    """distribution of the transport-level damage: how, where, and whether a rule set was loaded that could be lost"""
+    where = {"": "at 0" if spec.get("at", 0) == 0 else "near the start", "mid": "around the middle",
+             "end": "one byte short" if spec.get("at", 0) == 0 else "last bytes missing"}[spec.get("rel", "")]
+    for key in (f"cut:{prov} {spec.get('how')}" + (" reset" if spec.get("rst") else ""), f"cut:{prov} {where}",
+                f"cut:{prov} while a rule set is loaded" if loaded else f"cut:{prov} while nothing is loaded"):
+        outcomes[key] = outcomes.get(key, 0) + 1
+
+
 def tally(cases, model):
     st = {"steps": 0, "created": 0, "updated": 0, "deleted": 0, "refused_calls": 0, "steps_without_call": 0,
           "steps_without_call_while_loaded": 0, "polls_with_2plus_calls": 0, "relists": 0,
@@ -227,11 +271,15 @@ def tally(cases, model):
             for key in ("file", "resp"):
                 if key in s:
                     outcomes[s[key].get("st")] = outcomes.get(s[key].get("st"), 0) + 1
+                    if s[key].get("st") == "cut":
+                        note_cut(outcomes, "http", s[key], bool(o.get("active")))
                     if s[key].get("link"):
                         lk = "symlink:" + {"missing": "dangling", "dir": "to a directory"}.get(s[key].get("st"), "to a file")
                         outcomes[lk] = outcomes.get(lk, 0) + 1
             for b in s.get("set", []):
                 outcomes["blob:" + b["blob"]["st"]] = outcomes.get("blob:" + b["blob"]["st"], 0) + 1
+                if b["blob"]["st"] == "cut":
+                    note_cut(outcomes, "blob", b["blob"], any(a[0] == "s%d" % b["k"] for a in o.get("active", [])))
             if s.get("fail"):
                 outcomes["poll:" + s["fail"]] = outcomes.get("poll:" + s["fail"], 0) + 1
             if s.get("ev"):
@@ -347,8 +395,12 @@ def run(R):
                 "entries are regular files, sub directories or symbolic links to a file / a directory / nothing, "
                 "present at start, created, re-pointed and removed), "
                 "http_endpoint (1-3 endpoints, also same path on two hosts or differing in the query only; httptest servers: valid yaml/json, empty, unparsable, unknown content type, 4xx/5xx, "
-                "closed connection, cancelled poll), cloud_blob (S3 fake: blobs appearing/changing/emptied/broken/"
-                "removed, unreachable bucket, single-blob urls), kubernetes (real informer over a scripted "
+                "closed connection, cancelled poll, and transport-level damage of an otherwise valid 200 answer: "
+                "Content-Length announced and the connection closed / reset after k bytes (k = 0, near the start, "
+                "around the middle, the last bytes or byte missing), chunked transfer broken off inside a chunk or "
+                "before the terminating chunk, more bytes sent than announced), cloud_blob (S3 fake: blobs "
+                "appearing/changing/emptied/broken/removed, GET of a listed object broken off mid-body at the same "
+                "offsets, unreachable bucket, single-blob urls), kubernetes (real informer over a scripted "
                 "list/watch: add/modify/delete, status-only updates, class changes, broken watch with missed "
                 "deletions and re-created resources); each step may have the rule-set processor refuse the calls "
                 "of some sources, and file_system / http_endpoint histories contain well-formed contents the REAL "
@@ -372,8 +424,14 @@ def run(R):
         "documented delta semantics",
         "the rule-set processor is modelled by accept/refuse and the list of loaded rule sets (C06 proves the "
         "repository behind it); a rule set refused for its own rules is treated like a refused call",
-        "communication errors of http_endpoint and cloud_blob are taken for 'source gone' as the code does (the "
-        "property allows keep or unload); heimdall's documentation promises 'preserved', see design/C18.md",
+        "communication errors of http_endpoint and cloud_blob (no answer at all, an answer with another status) are "
+        "taken for 'source gone' as the code does (the property allows keep or unload); heimdall's documentation "
+        "promises 'preserved', see design/C18.md. A 200 answer / a listed object whose body arrives incompletely is "
+        "NOT in this class: it is an invalid new version and has to leave the loaded one active "
+        "(c18_partial_response_keeps_previous, c18_partial_blob_keeps_previous)",
+        "'more bytes sent than announced' hands the client a clean prefix; the generator cuts block-style YAML "
+        "documents only where the prefix is no rule set (measured over every offset: every proper non-empty prefix "
+        "up to the last three bytes), JSON documents anywhere; a prefix of length 0 is an empty answer",
         "provider models describe /repo with fixes/C18-1..5 applied",
     ]
     for c, i, m in harness_errors[:3]:
